@@ -31,11 +31,13 @@
   * `C07_stable`, `C07_stable_real`: reload stability (any `RealLike α`; ℝ with any idempotent
     narrowing).
 
-  NOT PROVED: the code-independent real inequality `C07_BloomRoundingAllowance`
-  ("(1 − e^{−kn/m})^k ≤ 1.07·t whenever m·c1 ≥ −n ln t and |k − c2·m/n| ≤ ½, k ≥ 1").  It is a
-  `def … : Prop`; `C07_bloom_partial` derives the full Bloom clause `C07_bloom_full_statement`
-  (stated with the model's `currentFpr`) from it.
+  ALSO PROVED (added later): the code-independent real inequality `C07_BloomRoundingAllowance`
+  ("(1 − e^{−kn/m})^k ≤ 1.07·t for the rounded k") — `C07_allowance`, analytic proof in
+  `Lemmas/BloomAllowance.lean` — hence the full Bloom clause `C07_bloom_full : C07_bloom_full_statement`
+  without hypotheses.  What remains outside Lean is only the IEEE-754 rounding between these real-number
+  theorems and the `Float` instance the code's behaviour is compared with.
 -/
+import PyProb.Lemmas.BloomAllowance
 import PyProb.Lemmas.RealInst
 import PyProb.Lemmas.Log2Bound
 import PyProb.Lemmas.SizingExamples
@@ -315,7 +317,7 @@ theorem C07_bloom_delivered (nr : ℝ → ℝ) (n : Int) (p t : ℝ) (k m : Nat)
 theorem C07_narrow_le_one (nr : ℝ → ℝ) (hmono : Monotone nr) (hone : nr 1 = 1) (p : ℝ)
     (hp : p < 1) : nr p ≤ 1 := hone ▸ hmono hp.le
 
-/-! ### the rounding allowance (not proved) and the packaged Bloom clause -/
+/-! ### the rounding allowance and the packaged Bloom clause -/
 
 /-- Code-independent real inequality: with `m` bits satisfying `m·c1 ≥ −n ln t` and a hash count
     `k ≥ 1` within ½ of `c2·m/n`, the textbook false-positive rate `(1 − e^{−kn/m})^k` exceeds `t`
@@ -479,5 +481,15 @@ example : @bloomParams ℝ (realLikeWith upHalf) 1 (3 / 10) = .ok (1 / 2, 1, 2) 
     refine ⟨le_refl _, by norm_num, by norm_num, by norm_num, by norm_num, rfl⟩
   exact ⟨h, C07_stable_real upHalf 1 (3 / 10) (1 / 2) 1 2 (upHalf_idem _)
     (C07_narrow_le_one upHalf upHalf_monotone upHalf_one _ (by norm_num)) h⟩
+
+/-! ### the 7 % clause, unconditionally -/
+
+/-- the rounding allowance is a theorem (analytic proof in `Lemmas/BloomAllowance.lean`: recentring at
+    the code's ln 2 literal, three regions of `u = kn/m`, supremum ¾·√2 ≈ 1.0607 at k = 1) -/
+theorem C07_allowance : C07_BloomRoundingAllowance := PyProb.BloomAllowance.bloom_rounding_allowance
+
+/-- **the Bloom clause of C07 at full strength**: whatever geometry `_get_optimized_params` returns,
+    the theoretical false-positive rate at the planned load is at most 1.07 × the (narrowed) request -/
+theorem C07_bloom_full : C07_bloom_full_statement := C07_bloom_partial C07_allowance
 
 end PyProb.C07
